@@ -16,6 +16,22 @@ ann = json.load(open(os.path.join(ROOT, "seeded", "annotations.json")))
 taken = [(k, v) for k, v in sorted(ann.items()) if k.split("-")[0] == pid]
 
 FOCUS = {
+    "8": """This round asks for kinds of change the earlier rounds under-used. Prefer, in this order:
+  (a) FEATURE INTERACTIONS: a change that is invisible while each feature is used alone and shows only when two or three are
+      combined (compression x fragmentation x control frames; NetConn x deadlines x ping; CloseRead x Close x a blocked
+      writer; wsjson x read limit; context takeover x a message that failed; options or headers reused for a second
+      connection; client role x server role differences);
+  (b) THE SECOND USE AFTER A FAILURE: what the library does when the application carries on after an error as real programs
+      do - retries the call, reads again, closes twice, uses a Reader/Writer handle again, runs a deferred Close, reuses
+      a context, dials again with the same options - where the first failure left some state half-updated;
+  (c) ARITHMETIC AND BOUNDARIES in places nobody has looked at: int vs int64 vs uint truncation, off-by-one at 125/126,
+      4095/4096/4097, 65535/65536, 2^31, 2^63-1, counters that wrap, lengths of exactly 0, an empty but non-nil slice;
+  (d) ORDERING: two statements swapped, a defer moved above or below another, a lock released one statement early, a flag
+      set after instead of before the action it guards, a check hoisted out of a loop - the kind that only bites under
+      one interleaving or one fault.
+The remarks file matters as much as the two changes: while you read the code, write down EVERYTHING in the unchanged
+library that sits badly with the property (with input, expected, observed, and a test you actually ran) - in the last
+round such remarks uncovered two real defects.""",
     "7": """This round asks for kinds of change that earlier rounds under-used. Prefer, in this order:
   (a) TWO COOPERATING SITES: two small edits in different functions or files, each of which is harmless on its own (say so
       in notes.md and check it: with either edit alone your demonstration passes), that break the property only together;
